@@ -469,6 +469,11 @@ impl BitOps {
             return Err(ZiporaError::invalid_data("Invalid variable length field"));
         }
         
+        // Same answer on every path: a field that leaves the 64-bit stream is an error
+        if start_bit >= 64 || start_bit + length > 64 {
+            return Err(ZiporaError::invalid_data("Field extends beyond bit stream"));
+        }
+        
         if self.config.enable_bmi2 && self.config.enable_variable_length_decoding && self.features.has_bmi2 {
             #[cfg(target_arch = "x86_64")]
             {
@@ -478,9 +483,6 @@ impl BitOps {
         }
         
         // Software fallback
-        if start_bit + length > 64 {
-            return Err(ZiporaError::invalid_data("Field extends beyond bit stream"));
-        }
         
         let shifted = bit_stream >> start_bit;
         let mask = if length == 32 { u32::MAX } else { (1u32 << length) - 1 };
